@@ -1468,19 +1468,20 @@ REPLAYERS["c04"] = (lambda prev: (lambda ctx, fl: replay_fileiter(ctx, fl) if fl
 # ---------------------------------------------------------------------------------------------------------
 # C14 write side on the MIR engine: Package::write / PackageMetadata::write into scripted sinks
 # ---------------------------------------------------------------------------------------------------------
-def c14_write(ctx, k, what="package", mode="fail"):
+def c14_write(ctx, k, what="package", mode="fail", sigsz=5):
     wr = ctx.impl_fn("write", None, "Package" if what == "package" else "PackageMetadata")
     ex = Exec(ctx.funcs, intrinsics.I, max_steps=400000)
     ctx.stats = ex.stats
-    ctx.bounds = ("%s::write of a package with a 2-entry signature header (5 store bytes + 3 padding), a 1-entry main header (4 store bytes) and 3 payload bytes, all contents symbolic, "
-                  "into a sink accepting %s per call, %s at a symbolic call number" % (what.capitalize(), "everything" if k == 0 else "%d byte(s)" % k, {"fail": "failing for good", "intr": "answering Interrupted once", "offsets": "never failing (fail_at = 0 means no failure);"}[mode]))
+    ctx.bounds = ("%s::write of a package with a 2-entry signature header (%d store bytes + %d padding), a 1-entry main header (4 store bytes) and 3 payload bytes, all contents symbolic, "
+                  "into a sink accepting %s per call, %s at a symbolic call number" % (what.capitalize(), sigsz, (-sigsz) % 8, "everything" if k == 0 else "%d byte(s)" % k, {"fail": "failing for good", "intr": "answering Interrupted once", "offsets": "never failing (fail_at = 0 means no failure);"}[mode]))
 
     def setup(e):
-        return dict(sig=sym_bytes(e, "s", 5, 0, 255), hdr=sym_bytes(e, "h", 4, 0, 255), content=sym_bytes(e, "c", 3, 0, 255),
+        return dict(sig=sym_bytes(e, "s", sigsz, 0, 255), hdr=sym_bytes(e, "h", 4, 0, 255), content=sym_bytes(e, "c", 3, 0, 255),
                     tags=[z3.BitVec("t%d" % i, 32) for i in range(3)], fail_at=z3.BitVec("fail_at", 16), intr_at=z3.BitVec("intr_at", 16))
 
     def body(e, inp):
-        sig = header([index_entry(Int(inp["tags"][0], "u32"), index_data("Bin", byte_vec(inp["sig"][:3])), 0), index_entry(Int(inp["tags"][1], "u32"), index_data("Bin", byte_vec(inp["sig"][3:])), 3)], inp["sig"])
+        cut = min(3, sigsz)
+        sig = header([index_entry(Int(inp["tags"][0], "u32"), index_data("Bin", byte_vec(inp["sig"][:cut])), 0), index_entry(Int(inp["tags"][1], "u32"), index_data("Bin", byte_vec(inp["sig"][cut:])), cut)], inp["sig"])
         hdr = header([index_entry(Int(inp["tags"][2], "u32"), index_data("Bin", byte_vec(inp["hdr"])), 0)], inp["hdr"])
         pkg = package(sig, hdr, inp["content"])
         target = pkg if what == "package" else pkg.fields[0]
@@ -1502,7 +1503,7 @@ def c14_write(ctx, k, what="package", mode="fail"):
         def wit():
             assert e.solver.check() == z3.sat
             m = e.solver.model()
-            return dict(fail_at=m.eval(inp["fail_at"], model_completion=True).as_long(), intr_at=m.eval(inp["intr_at"], model_completion=True).as_long(), k=k, what=what)
+            return dict(fail_at=m.eval(inp["fail_at"], model_completion=True).as_long(), intr_at=m.eval(inp["intr_at"], model_completion=True).as_long(), k=k, what=what, sigsz=sigsz)
         if kk != "return":
             ctx.fail("writing panics: %s" % (v,), what + "::write", kind="wpanic", **wit())
             return
@@ -1529,6 +1530,15 @@ def c14_write(ctx, k, what="package", mode="fail"):
 
 
 def replay_wsink(ctx, fl):
+    if fl.get("sigsz", 5) != 5:
+        # the shape of the harness's package matters (signature store size mod 8): hand-encode it
+        import rpmbytes as RB
+        n = fl["sigsz"]
+        cut = min(3, n)
+        sig_e = [(1000, "Bin", 0, cut), (1001, "Bin", cut, n - cut)] if n - cut > 0 and cut > 0 else ([(1000, "Bin", 0, n)] if n else [])
+        pk = RB.package(sig_e, b"\x07" * n, [(1000, "Bin", 0, 4)], b"\x01\x02\x03\x04", b"abc")
+        ans = ctx.native.ask("wsink", str(fl["k"]), str(fl["fail_at"]), str(fl["intr_at"]), fl["what"], pk.hex())
+        return ans.startswith("bad"), "real crate, same sink script on a hand-encoded package with a %d-byte signature store (canonical bytes = the input): %s" % (n, ans)
     ans = ctx.native.ask("wsink", str(fl["k"]), str(fl["fail_at"]), str(fl["intr_at"]), fl["what"])
     return ans.startswith("bad"), "real crate, same sink script on a built package: " + ans
 
@@ -1539,6 +1549,10 @@ for _k in (0, 1, 2, 5):
     HARNESSES["c14_wmeta_k%d" % _k] = (lambda k: (lambda ctx: c14_write(ctx, k, "metadata", "fail")))(_k)
 for _k in (1, 2, 3, 5):
     HARNESSES["c16_woff_k%d" % _k] = (lambda k: (lambda ctx: c14_write(ctx, k, "package", "offsets")))(_k)
+for _r in range(0, 17):
+    # every signature store size mod 8 (and a second period), whole-buffer sink and a 1-byte sink
+    HARNESSES["c16_resid_%d" % _r] = (lambda r: (lambda ctx: c14_write(ctx, 0, "package", "offsets", sigsz=r)))(_r)
+    HARNESSES["c14_resid_%d" % _r] = (lambda r: (lambda ctx: c14_write(ctx, 1, "package", "fail", sigsz=r)))(_r)
 _ra2 = REPLAYERS["c14"]
 REPLAYERS["c14"] = lambda ctx, fl: replay_wsink(ctx, fl) if fl.get("kind") in ("wsink", "wpanic") else _ra2(ctx, fl)
 
